@@ -306,7 +306,10 @@ class Interp:
             args = [self.concretize(a, 'range bound') for a in args]
         if f is io.BytesIO and isinstance(a0, SBytes): return SB.SBytesIO(a0)
         if f is builtins.bytearray and (isinstance(a0, SBytes) or has_sym(a0)):
-            raise EngineError('bytearray of symbolic data')
+            if len(args) != 1 or kwargs: raise EngineError('bytearray of symbolic data with an encoding')
+            if isinstance(a0, IGen): a0 = list(a0)
+            r = SB.from_items(SB.items_of(a0) if isinstance(a0, SBytes) else list(a0))
+            return SB.SByteArr(r.items) if isinstance(r, SBytes) else bytearray(r)
         if f is builtins.float and isinstance(a0, SymInt): raise EngineError('float of symbolic int')
         return f(*args, **kwargs)
 
